@@ -12,4 +12,7 @@ def check(run, only=None):
                           "GSSNode: the node id is a function of (frontier, state id); for_token returns this very node "
                           "when it has no look-ahead yet or already this one, otherwise a NEW node that differs in nothing "
                           "but the token (state, position, frontier, id, input, layout before and after) and holds a copy "
-                          "of the parent links")
+                          "of the parent links; Parent.__init__ (an omitted end position means an empty span -- 0 is a "
+                          "position --, given alternatives adopted and re-pointed, a token gives one leaf), "
+                          "Parent.clone_with_root (same span/token/head from another root, with its own list of the same "
+                          "alternatives), Parent.merge and GSSNode.create_link (see C02)")
